@@ -113,7 +113,8 @@ func VerifC19() {
 					o.Guard = c19Guard(false)
 				}
 			}
-			if i > 0 && verif.Choose(tag+".inv"+string(rune('0'+i)), 2) == 1 {
+			// (any output may be a forbidden one, also all of them: a step that only forbids)
+			if verif.Choose(tag+".inv"+string(rune('0'+i)), 2) == 1 {
 				o.Inverted = true
 			} else {
 				expected++
